@@ -745,10 +745,10 @@ def _while_progress(ctx, f, lp, famloops):
                     return True, '`%s` strictly advances and is bound-checked with a raising arm inside the body' % v
     if f.short == 'codec.ber.decoder.SingleItemDecoder.__call__' and norm(test) == 'state is not stStop':
         return True, 'state machine: see A14.states (transition graph acyclic, every arm moves the state)'
-    if norm(test) == 'True':
-        # `while True` retry loops of the leaf producers: every trip either suspends (yield), raises or breaks
-        if all(_trip_suspends_or_leaves(s) for s in [body]):
-            return True, 'every trip suspends (yield), raises or leaves the loop'
+    # retry loops of the leaf producers (`while True: ...` or `while x is None: yield ...; x = read()`): every trip either
+    # suspends (yield: control goes back to the caller), raises or leaves
+    if all(_trip_suspends_or_leaves(s) for s in [body]):
+        return True, 'every trip suspends (yield), raises or leaves the loop'
     return False, 'no input-consuming call, no strictly advancing tested counter, no shrinking slice on every trip'
 
 
